@@ -102,10 +102,12 @@ type recvCase struct {
 	PreMatch  bool // a proxy_protocol matcher prefetches before the handler runs
 	PreIP     bool // remote_ip / local_ip matchers on the real addresses run before the handler
 	peerAllow bool
+	// EOFWithData: the read that returns the client's last bytes also reports the end of the stream
+	EOFWithData bool
 }
 
 func genRecv(t *rapid.T) recvCase {
-	rc := recvCase{Hdr: genHdr(t), PreMatch: rapid.Bool().Draw(t, "preMatch"), PreIP: rapid.Bool().Draw(t, "preIP")}
+	rc := recvCase{Hdr: genHdr(t), PreMatch: rapid.Bool().Draw(t, "preMatch"), PreIP: rapid.Bool().Draw(t, "preIP"), EOFWithData: rapid.IntRange(0, 2).Draw(t, "eofWithData") == 0}
 	switch rapid.IntRange(0, 4).Draw(t, "payloadKind") {
 	case 0:
 		rc.Payload = 0
@@ -202,7 +204,11 @@ func runRecv(t hx.TB, rc recvCase, class string) {
 		t.Fatalf("provision: %v", err)
 	}
 	h := rx.Compile(rl, time.Second, false)
-	under := hx.NewScriptConn(hx.Split(stream, rc.Cuts), hx.EndEOF)
+	end := hx.EndEOF
+	if rc.EOFWithData {
+		end = hx.EndEOFWithData
+	}
+	under := hx.NewScriptConn(hx.Split(stream, rc.Cuts), end)
 	realRemote := &net.TCPAddr{IP: net.ParseIP(rc.PeerIP), Port: 40123}
 	realLocal := &net.TCPAddr{IP: net.ParseIP("198.51.100.1"), Port: 8443}
 	under.Remote, under.Local = realRemote, realLocal
@@ -440,14 +446,14 @@ func newUpstream(t hx.TB) *upstream {
 }
 
 type sendCase struct {
-	Version  string
-	V6       bool
+	Version    string
+	V6         bool
 	skipHandle bool
-	Payload  int
-	Cuts     []int
-	Via      *hdrSpec // a proxy_protocol handler received this header first (composition)
-	PreMatch int      // bytes a matcher inspects before the proxy handler runs
-	Peers    int      // dial addresses of the one upstream (every peer must get its own header)
+	Payload    int
+	Cuts       []int
+	Via        *hdrSpec // a proxy_protocol handler received this header first (composition)
+	PreMatch   int      // bytes a matcher inspects before the proxy handler runs
+	Peers      int      // dial addresses of the one upstream (every peer must get its own header)
 }
 
 func runSend(t hx.TB, ups []*upstream, sc sendCase) {
